@@ -13,6 +13,7 @@ import (
 	"strings"
 
 	"github.com/resonatehq/resonate/pkg/promise"
+	"github.com/resonatehq/resonate/pkg/schedule"
 	"github.com/resonatehq/resonate/verifharness/internal/lean"
 )
 
@@ -57,6 +58,7 @@ func main() {
 	summary := M{"cases": *n, "scripts": *n, "disagreements": 0}
 	classes := map[string]int{}
 	var samples []any
+	records := 0
 	fail := func(what string, m map[string]string, detail string) {
 		rep := M{"harness": "codecdiff", "map": m, "what": what, "detail": detail}
 		b, _ := json.MarshalIndent(rep, "", " ")
@@ -132,6 +134,43 @@ func main() {
 			fail("model decoding differs", m, fmt.Sprint(got))
 			break
 		}
+		// the whole record conversion, in every state a stored promise can be in: parameter and tags always, the value
+		// whenever the state is one a client completes a promise with (resolved, rejected, canceled) — and the schedule
+		// record's three maps and parameter data
+		{
+			st := []promise.State{promise.Pending, promise.Resolved, promise.Rejected, promise.Canceled, promise.Timedout}[i%5]
+			data := []byte(string(goBytes) + "\x00\xff")
+			rec := &promise.PromiseRecord{Id: "x", State: st, ParamHeaders: goBytes, ParamData: data, Tags: goBytes}
+			withValue := st == promise.Resolved || st == promise.Rejected || st == promise.Canceled
+			if withValue {
+				rec.ValueHeaders, rec.ValueData = goBytes, data
+			}
+			q, qerr := rec.Promise()
+			bad := ""
+			switch {
+			case qerr != nil:
+				bad = qerr.Error()
+			case !reflect.DeepEqual(q.Param.Headers, m) || string(q.Param.Data) != string(data):
+				bad = "parameter"
+			case !reflect.DeepEqual(q.Tags, m):
+				bad = "tags"
+			case withValue && (!reflect.DeepEqual(q.Value.Headers, m) || string(q.Value.Data) != string(data)):
+				bad = "value"
+			}
+			if bad != "" {
+				fail(fmt.Sprintf("a stored promise row in state %v is not returned as stored: %s", st, bad), m, fmt.Sprintf("decoded value headers %v, %d value bytes", q.Value.Headers, len(q.Value.Data)))
+				summary["property_violation"] = true
+				break
+			}
+			sr := &schedule.ScheduleRecord{Id: "s", Tags: goBytes, PromiseTags: goBytes, PromiseParamHeaders: goBytes, PromiseParamData: data}
+			sc, serr := sr.Schedule()
+			if serr != nil || !reflect.DeepEqual(sc.Tags, m) || !reflect.DeepEqual(sc.PromiseTags, m) || !reflect.DeepEqual(sc.PromiseParam.Headers, m) || string(sc.PromiseParam.Data) != string(data) {
+				fail("a stored schedule row is not returned as stored", m, fmt.Sprint(serr))
+				summary["property_violation"] = true
+				break
+			}
+			records++
+		}
 		if i < 2 {
 			samples = append(samples, M{"map": m, "encoded": string(goBytes)})
 		}
@@ -140,7 +179,7 @@ func main() {
 	for _, v := range classes {
 		total += v
 	}
-	summary["counts"] = M{"nontrivial": *n, "char_classes": classes, "chars": total}
+	summary["counts"] = M{"nontrivial": *n, "char_classes": classes, "chars": total, "records_decoded": records}
 	summary["samples"] = samples
 	b, _ := json.MarshalIndent(summary, "", " ")
 	if *out != "" {
